@@ -6,25 +6,29 @@ import json
 import random
 import warnings
 
-from .. import tlc, valuestream as vs
+from .. import carriers, tlc, valuestream as vs
 from ..core import Ctx, Outcome, Violation
 from ..terms import clear_typelib_caches, project
 from ..typeterms import TEXT_POOL, values
 from ..zygote import deep_mutate
 from .c03 import shape
 
-CARRIERS = ["str", "bytes", "bytearray", "mvb", "mvba"]
+CARRIERS = carriers.CARRIERS
 EXTRA_TEXTS = ['{"a": [1, {"b": [2]}]}', "(1, [2, 3])", "[[1], [2]]", '{"a":', "[1,", "\x00", "éè", "  [1]  ", "0123", "1_000", "...", '"\\ud83d\\ude00"', "[1, 2, 3]",
                '{"x": 1, "y": "s"}', '["a", "b"]', "{'a': 1}", "('a', 1)", "{1, 2}", "1,2", "a b", "-0", "1.50", "\t\n", "nul",
                "[]", "{}", '""', "''", "0", "-1", "2020-01-01T00:00:00+00:00", "P1D", "a/b",
-               "\ufeffabc", "\ufeff12", "\ufeff[1, 2]", "\u200b1", "\xa01", "１２"]
-ALWAYS = ["\ufeff12", "\ufeff[1, 2]", "\ufeffabc", " 1 ", "１２"]
+               "\ufeffabc", "\ufeff12", "\ufeff[1, 2]", "\u200b1", "\xa01", "１２",
+               # a document after a line break / other blanks the parsers skip
+               "\n[1, 2]", "\r\n{\"a\": 1}", "\n12", " \t\n null", "\n\"abc\"", "[1, 2]\n", "\x0c[1]", "\n(1, 2)", "\nabc"]
+ALWAYS = ["\ufeff12", "\ufeff[1, 2]", "\ufeffabc", " 1 ", "１２", "\n[1, 2]", "\n12"]
 
 
 def carry(c, s):
-    b = s.encode("utf-8", "surrogatepass") if c != "str" else None
-    return {"str": lambda: s, "bytes": lambda: b, "bytearray": lambda: bytearray(b),
-            "mvb": lambda: memoryview(b), "mvba": lambda: memoryview(bytearray(b))}[c]()
+    return carriers.carry(c, s, "surrogatepass")
+
+
+def intact(x, s):
+    return carriers.intact(x, s, "surrogatepass")
 
 
 def facts(s):
@@ -70,19 +74,21 @@ def collect(ctx: Ctx, profile: str, quick: bool):
             continue
         for c in CARRIERS:
             for fname, fn in (("load", serdes.load), ("strload", serdes.strload)):
-                out, r = vs.out_of(fn, carry(c, s))
+                x = carry(c, s)
+                out, r = vs.out_of(fn, x)
                 events.append({"ev": "load", "text": True, "isjson": f["isjson"], "json": f["json"], "isliteral": f["isliteral"],
-                               "astext": project(s), "out": out, "same": True})
+                               "astext": project(s), "out": out, "same": True, "intact": intact(x, s)})
                 meta.append({"fn": fname, "carrier": c, "text": s})
                 # the caller modifies the container it was given (at every level): the next call must not notice
                 if isinstance(r, (list, dict, set, tuple)) and deep_mutate(r):
                     out2, _ = vs.out_of(fn, carry(c, s))
                     events.append({"ev": "load", "text": True, "isjson": f["isjson"], "json": f["json"], "isliteral": f["isliteral"],
-                                   "astext": project(s), "out": out2, "same": True})
+                                   "astext": project(s), "out": out2, "same": True, "intact": True})
                     meta.append({"fn": fname + ":after-mutation", "carrier": c, "text": s})
-            out, r = vs.out_of(serdes.decode, carry(c, s))
+            x = carry(c, s)
+            out, r = vs.out_of(serdes.decode, x)
             events.append({"ev": "load", "text": True, "isjson": False, "json": f["json"], "isliteral": False,
-                           "astext": project(s), "out": out, "same": True})
+                           "astext": project(s), "out": out, "same": True, "intact": intact(x, s)})
             meta.append({"fn": "decode", "carrier": c, "text": s})
     for x in (None, 1, 1.5, True, [1], {"a": 1}, (1, 2), object(), env.obj("D1")(a=1, b="s")):
         for fname, fn in (("load", serdes.load), ("decode", serdes.decode)):
@@ -91,7 +97,7 @@ def collect(ctx: Ctx, profile: str, quick: bool):
             except Exception as e:
                 out = {"k": "raised", "e": type(e).__name__}; same = False
             events.append({"ev": "load", "text": False, "isjson": False, "json": {"k": "none", "cls": "NoneType"}, "isliteral": False,
-                           "astext": {"k": "none", "cls": "NoneType"}, "out": out, "same": same})
+                           "astext": {"k": "none", "cls": "NoneType"}, "out": out, "same": same, "intact": True})
             meta.append({"fn": fname, "carrier": "non-text", "text": repr(x)[:40]})
     # ---- carrier freedom and text/value equivalence per type
     for T in types:
@@ -114,8 +120,12 @@ def collect(ctx: Ctx, profile: str, quick: bool):
                 s.encode("utf-8")
             except UnicodeEncodeError:
                 continue
-            outs = [vs.out_of(typelib.unmarshal, ann, carry(c, s))[0] for c in CARRIERS]
-            events.append({"ev": "carrier", "outs": outs})
+            xs = [carry(c, s) for c in CARRIERS]
+            outs = [vs.out_of(typelib.unmarshal, ann, x)[0] for x in xs]
+            # the caller's object survives the call, and handing the very same object over again gives the same outcome
+            alive = all(intact(x, s) for x in xs)
+            again = [vs.out_of(typelib.unmarshal, ann, x)[0] for x in xs]
+            events.append({"ev": "carrier", "outs": outs, "intact": alive, "again": again == outs})
             meta.append({"T": T, "text": s})
         k = T["k"]
         if k in ("coll", "map", "tup", "cls"):
@@ -159,6 +169,10 @@ def run(ctx: Ctx) -> Outcome:
     shared = tlc.run("MC_Carriers", "MC_Carriers_shared.cfg", workers=2)
     if shared.ok or "CarrierFree" not in shared.stdout:
         raise tlc.MachineryError("Carriers model not sensitive: handing out the memo's own containers must violate CarrierFree")
+    for cfg, inv in (("MC_Carriers_exporter.cfg", "CarrierFree"), ("MC_Carriers_release.cfg", "InputIntact")):
+        r = tlc.run("MC_Carriers", cfg, workers=2)
+        if r.ok or inv not in r.stdout:
+            raise tlc.MachineryError(f"Carriers model not sensitive: {cfg} must violate {inv}")
     events, meta, model, ntypes = collect(ctx, profile, ctx.quick)
     tres, rejects = tlc.validate_trace("Carriers_Trace", "Carriers_Trace.cfg", events, timeout=7200)
     viol = _violations(rejects, events, meta)
@@ -169,11 +183,11 @@ def run(ctx: Ctx) -> Outcome:
            "distinct_nontrivial": len(nontrivial), "types": ntypes,
            "load_events": sum(1 for e in events if e["ev"] == "load"), "carrier_events": sum(1 for e in events if e["ev"] == "carrier"),
            "texteq_events": sum(1 for e in events if e["ev"] == "texteq"),
-           "rule": "model: every history of length<=3 of load() calls and caller-side mutations of returned containers over 6 texts x 5 "
+           "rule": "model: every history of length<=3 of load() calls and caller-side mutations of returned containers over 6 texts x 8 "
                    "carriers with the memo as state; real: load/strload/decode (load/strload again after deep-mutating the returned container) "
                    "over ~80 texts (numeric/boolean/null look-alikes, malformed JSON, control characters, non-ASCII, JSON surrogate "
-                   "escapes) x 5 carriers with json/ast facts from the standard library; every type of the TLC universe x (text pool "
-                   "sample + JSON and repr renderings of its wire values) x 5 carriers; JSON text vs literal text vs decoded value for "
+                   "escapes) x 8 carriers with json/ast facts from the standard library; every type of the TLC universe x (text pool "
+                   "sample + JSON and repr renderings of its wire values) x 8 carriers; JSON text vs literal text vs decoded value for "
                    "collection/mapping/structured types; non-trivial = the str carrier is accepted, distinct by (type, text)",
            "samples": [dict(meta[len(meta) // 2], event=events[len(events) // 2])]}
     return Outcome(level="model_checking", coverage=cov, violations=viol,
